@@ -4,6 +4,11 @@ package internal
 
 import (
 	"errors"
+	"io"
+
+	"connectrpc.com/connect"
+	"connectrpc.com/conformance/internal/compression"
+	"google.golang.org/protobuf/types/known/anypb"
 
 	conformancev1 "connectrpc.com/conformance/internal/gen/proto/go/connectrpc/conformance/v1"
 )
@@ -137,3 +142,135 @@ func h17a(N, L int) {
 
 func H17a_q() { h17a(2, 2) }
 func H17a_t() { h17a(3, 3) }
+
+// ---- H17e: per-item compression in the raw message encoder ----
+//
+// Symbolically the compressors are replaced by a framing model (one header byte naming the algorithm, the
+// payload, one trailer byte written by Close): like the real formats it produces output even for an empty
+// payload (except snappy, whose framing writes nothing without data) and only finishes the stream on Close. Natively the real compressors run and the expected bytes are
+// produced by running the same real compressor directly.
+
+type vFakeCompressor struct {
+	tag     byte
+	w       io.Writer
+	started bool
+}
+
+func (c *vFakeCompressor) Reset(w io.Writer) { c.w = w; c.started = false }
+func (c *vFakeCompressor) start() error {
+	if c.started || c.tag == 0 {
+		return nil
+	}
+	c.started = true
+	_, err := c.w.Write([]byte{0xC0 + c.tag})
+	return err
+}
+func (c *vFakeCompressor) Write(p []byte) (int, error) {
+	if len(p) == 0 && c.tag == 6 {
+		return 0, nil // the snappy framing writes nothing, not even its stream header, before the first data
+	}
+	if err := c.start(); err != nil {
+		return 0, err
+	}
+	if len(p) == 0 {
+		return 0, nil
+	}
+	return c.w.Write(p)
+}
+func (c *vFakeCompressor) Close() error {
+	if c.tag == 0 || (c.tag == 6 && !c.started) {
+		return nil
+	}
+	if err := c.start(); err != nil {
+		return err
+	}
+	_, err := c.w.Write([]byte{0xE0 + c.tag})
+	return err
+}
+
+//verif:replace connectrpc.com/conformance/internal/compression.GetCompressor vModelGetCompressor
+func vModelGetCompressor(c conformancev1.Compression) (connect.Compressor, error) {
+	switch {
+	case c == 0 || c == 1:
+		return &vFakeCompressor{}, nil
+	case c >= 2 && c <= 6:
+		return &vFakeCompressor{tag: byte(c)}, nil
+	}
+	return nil, errVerifWrite
+}
+
+func H17e_q() {
+	comp := vInt("comp", 0, 7) // unspecified, identity, gzip, br, zstd, deflate, snappy, and an unknown value
+	kind := vInt("kind", 0, 3) // no data, binary, binary message, text
+	n := vInt("plen", 0, 2)
+	data := make([]byte, n)
+	for j := 0; j < n; j++ {
+		data[j] = vByteAt("payload", j, 2)
+	}
+	mc := &conformancev1.MessageContents{Compression: conformancev1.Compression(comp)}
+	switch kind {
+	case 1:
+		mc.Data = &conformancev1.MessageContents_Binary{Binary: data}
+	case 2:
+		mc.Data = &conformancev1.MessageContents_BinaryMessage{BinaryMessage: &anypb.Any{TypeUrl: "t", Value: data}}
+	case 3:
+		if vNative() {
+			for j := range data {
+				data[j] &= 0x7f // keep the text valid UTF-8 natively
+			}
+		}
+		mc.Data = &conformancev1.MessageContents_Text{Text: string(data)}
+	}
+	w := &vRecWriter{failAt: -1}
+	err := WriteRawMessageContents(mc, w)
+
+	var want [40]byte
+	wn := 0
+	wantErr := false
+	switch {
+	case kind == 0:
+		// no data: nothing at all is written, whatever the compression says
+	case comp == 7:
+		wantErr = true
+	case vNative():
+		ref := &vRecWriter{failAt: -1}
+		c, cerr := compression.GetCompressor(conformancev1.Compression(comp))
+		if cerr != nil {
+			panic(cerr)
+		}
+		c.Reset(ref)
+		if _, werr := c.Write(data); werr != nil {
+			panic(werr)
+		}
+		if cerr := c.Close(); cerr != nil {
+			panic(cerr)
+		}
+		want, wn = ref.buf, ref.n
+	default:
+		framed := comp >= 2 && !(comp == 6 && n == 0)
+		if framed {
+			want[wn] = 0xC0 + byte(comp)
+			wn++
+		}
+		for j := 0; j < n; j++ {
+			want[wn] = data[j]
+			wn++
+		}
+		if framed {
+			want[wn] = 0xE0 + byte(comp)
+			wn++
+		}
+	}
+	vAssert((err != nil) == wantErr, "error exactly for an unknown compression on a message that has data")
+	vAssert(w.closed == 0, "the encoder does not close the destination it was given")
+	if !wantErr {
+		vAssert(w.n == wn, "exactly the compressed form of the given data is written (also for present-but-empty data)")
+		same := true
+		for k := 0; k < 40; k++ {
+			if k < wn && w.buf[k] != want[k] {
+				same = false
+			}
+		}
+		vAssert(same, "the written bytes are the given data under the given compression")
+	}
+}
